@@ -388,6 +388,51 @@ def _modify_root_depth(ctx):
                     text_="_modifyRoot root depth")
 
 
+def _below_reaches_structure(ctx):
+    """The *Below transforms (swap / flatten / unflatten / split below the
+    root) restructure the fibers `depth` levels down through
+    Fiber.updatePayloads.  Its walk may leave out a payload only when leaving
+    it out cannot leave an un-restructured sub-tree behind: a leaf payload, or
+    a sub-fiber without coordinates.  `Payload.isEmpty` is recursive -- a
+    sub-fiber whose only descendants are explicit defaults is "empty" but has
+    children; skipped, it keeps its old rank structure inside a tree whose
+    ranks were re-arranged (Tensor.flattenRanks(depth=1) then fails while it
+    registers the fibers, rank lists name the wrong ranks after a swap)."""
+    f = ctx.method("Fiber", "updatePayloads")
+    loops = [lp for lp in f.own_nodes() if isinstance(lp, ast.For)
+             and any(isinstance(x, ast.Continue) for x in _walk(lp.body))
+             and "payloads" in text(lp.iter)]
+    ctx.require(loops, "C09.R4: the payload walk of Fiber.updatePayloads (with its "
+                "skip of empty payloads) was not found")
+    lp = loops[0]
+    pv = None
+    for n in ast.walk(lp.target):
+        if isinstance(n, ast.Name):
+            pv = n.id           # last name of the target: the payload
+    for c in [x for x in _walk(lp.body) if isinstance(x, ast.Continue)]:
+        ways = pat.guard_dnf(ctx, f, c, stop=lp) or []
+        bad = []
+        for w in ways:
+            childless = any(
+                a in w for a in (
+                    pat.T("isinstance(%s,Fiber)" % pv, False),
+                    pat.A("==", "len(%s.coords)" % pv, "0"),
+                    pat.A("==", "len(%s)" % pv, "0"),
+                    pat.T("%s.coords" % pv, False)))
+            if not childless:
+                bad.append(w)
+        if bad:
+            ctx.bad("C09.R4", f, c, "Fiber.updatePayloads skips a payload when %s, "
+                    "which is also true of a sub-fiber that has coordinates but "
+                    "only explicit defaults below it: the transforms applied "
+                    "\"below\" the root leave such a sub-fiber un-restructured"
+                    % sorted(str(a) for a in bad[0]),
+                    text_="updatePayloads skip reaches structure")
+        else:
+            ctx.ok("C09.R4", f, c, "only leaf payloads / childless sub-fibers are skipped",
+                   text_="updatePayloads skip reaches structure")
+
+
 def _swap_guard(ctx):
     """Tensor.swapRanks skips the fiber-level swap only when there is nothing
     to swap: the guard must be existential over the rank's fibers (`not all
@@ -596,6 +641,7 @@ def r4(ctx):
     _swap_guard(ctx)
     _modify_root(ctx)
     _modify_root_depth(ctx)
+    _below_reaches_structure(ctx)
     n_ = 0
     for mname in ("updateCoords", "updatePayloads", "_mergeRanksHelper", "unflattenRanks"):
         k = pat.check_unit_recursion(ctx, "C09.R4", ctx.method("Fiber", mname),
